@@ -912,7 +912,33 @@ impl Engine for Conc {
                 tasks.push(w);
             }
         }
-        for _ in 0..(if template || template2 || template3 { 0 } else { nt }) {
+        // readers-only template: every task only reads - container views (mostly scc), searches,
+        // orderings, snapshots - on one shared container. Whatever a read-only call keeps in the
+        // nodes or in the container while it runs (stamps, scratch sets, caches) is then shared
+        // by calls that overlap in time; each task must still see what it sees alone.
+        let template4 = !template && !template2 && !template3 && rng.chance(1, 25);
+        let shared_container = shared_container || template4;
+        if template4 {
+            for _ in 0..nt {
+                let mut r = Vec::new();
+                for _ in 0..rng.range(1, 3) {
+                    r.push(match rng.below(10) {
+                        0..=4 if directed => Op::GView { kind: 5 },
+                        0..=5 => Op::GView { kind: rng.below(9) as u8 },
+                        6..=8 => {
+                            let mut spec = gen::gen_search_spec(rng, &m, true);
+                            if !spec.valid(directed) {
+                                spec.transpose = false;
+                            }
+                            Op::Search { root: rng.below(n), spec }
+                        }
+                        _ => Op::Snapshot { u: rng.below(n) },
+                    });
+                }
+                tasks.push(r);
+            }
+        }
+        for _ in 0..(if template || template2 || template3 || template4 { 0 } else { nt }) {
             let k = rng.range(1, max_ops);
             let mut script = Vec::new();
             for _ in 0..k {
@@ -938,7 +964,7 @@ impl Engine for Conc {
             tasks.push(script);
         }
         // (a hub scenario is short in calls but not in lock points: never enumerated)
-        let tiny = !template3 && tasks.len() <= 3 && tasks.iter().map(|t| t.len()).sum::<usize>() <= 3;
+        let tiny = !template3 && !template4 && tasks.len() <= 3 && tasks.iter().map(|t| t.len()).sum::<usize>() <= 3;
         let kind = match rng.below(10) {
             _ if tiny && rng.chance(1, if tier == Tier::Quick { 150 } else { 60 }) => PolicyKind::Enumerate,
             _ if template3 => if rng.coin() { PolicyKind::Uniform } else { PolicyKind::Sticky { num: 50 } },
